@@ -9,16 +9,17 @@ package presence
 // getAllPresence returns for that ssid.
 
 import (
+	"github.com/emitter-io/emitter/internal/message"
 	"github.com/emitter-io/emitter/internal/provider/contract"
 	"github.com/emitter-io/emitter/internal/security"
 	"github.com/emitter-io/emitter/internal/service"
 	vs "github.com/emitter-io/emitter/internal/verifspec"
 )
 
-//@ assume github.com/emitter-io/emitter/internal/security.ParseChannel iface post=post_ParseChannel
+// @ assume github.com/emitter-io/emitter/internal/security.ParseChannel iface post=post_ParseChannel
 func post_ParseChannel(res0 *security.Channel) bool { return res0 != nil }
 
-//@ assume (github.com/emitter-io/emitter/internal/service.Authorizer).Authorize iface post=post_Authorize
+// @ assume (github.com/emitter-io/emitter/internal/service.Authorizer).Authorize iface post=post_Authorize
 func post_Authorize(res0 contract.Contract, res1 security.Key, res2 bool) bool {
 	return !res2 || len(res1) == 24
 }
@@ -30,7 +31,7 @@ func pre_OnRequest(s *Service, c service.Conn) bool {
 	return s != nil && c != nil && s.auth != nil && s.pubsub != nil
 }
 
-//@ verify (*Service).OnRequest pre=pre_OnRequest post=post_OnRequest_auth,post_OnRequest_changes props=C18,C11,C03
+// @ verify (*Service).OnRequest pre=pre_OnRequest post=post_OnRequest_auth,post_OnRequest_changes props=C18,C11,C03
 func specNoEffect() bool {
 	return vs.TraceCount("PubSub).Subscribe") == 0 && vs.TraceCount("PubSub).Unsubscribe") == 0 && vs.TraceCount("getAllPresence") == 0
 }
@@ -56,3 +57,50 @@ func post_OnRequest_changes(s *Service, res1 bool) bool {
 // the queue is full (it blocks instead). Channels are outside the verifier's subset; this is decided on the
 // control-flow graph: one send, no select, on every path to the return.
 //@ structural (*Service).Notify blocking-send props=C18
+
+// ---------------------------------------------------------------------------------------------------------
+// The status list (C18, first sentence): lookupPresence reports exactly the CONNECTIONS among the subscribers the
+// trie returns for the ssid - the very set a publish to that channel is fanned out to (C01/C02) - one entry each,
+// carrying that connection's id and the username it connected with; peers and other non-connection subscribers
+// are left out. The loop ranges over a map: explored for result sets of up to two subscribers (stated bounded).
+// send: a queued notification is published once, on the presence channel, with the notification's own filter.
+
+// @ assume (*github.com/emitter-io/emitter/internal/message.Trie).Lookup iface post=post_Trie_Lookup_set
+func post_Trie_Lookup_set(res0 message.Subscribers) bool {
+	return res0 != nil && vs.ForallKey(res0, func(k uint32) bool { return !vs.Has(res0, k) || res0[k] != nil }) &&
+		vs.ForallKey2(res0, func(k1, k2 uint32) bool {
+			return k1 == k2 || !vs.Has(res0, k1) || !vs.Has(res0, k2) || res0[k1] != res0[k2]
+		})
+}
+
+// @ verify (*Service).lookupPresence pre=pre_lookupPresence post=post_lookupPresence_lookup,post_lookupPresence_sound,post_lookupPresence_complete props=C18
+// @ loop (*Service).lookupPresence 0 unroll 2 bounded
+func pre_lookupPresence(s *Service) bool { return s != nil && s.trie != nil }
+func post_lookupPresence_lookup(s *Service, ssid message.Ssid) bool {
+	l := vs.TraceFind("Trie).Lookup")
+	return l == 0 && vs.TraceLen() == 1 && vs.TraceArg[*message.Trie](l, 0) == s.trie && specSameWords(vs.TraceArg[message.Ssid](l, 1), ssid)
+}
+func specSameWords(a, b message.Ssid) bool {
+	return len(a) == len(b) && vs.Forall(0, len(a), func(i int) bool { return a[i] == b[i] })
+}
+func specIsInfoOf(i Info, sub message.Subscriber) bool {
+	c, ok := sub.(service.Conn)
+	return ok && i.ID == c.ID() && i.Username == c.Username()
+}
+func post_lookupPresence_sound(s *Service, res0 []Info) bool { // every entry is a connection of the looked-up set
+	subs := vs.TraceRet[message.Subscribers](0, 0)
+	return len(res0) <= 2 && (len(res0) < 1 || !vs.ForallKey(subs, func(k uint32) bool { return !vs.Has(subs, k) || !specIsInfoOf(res0[0], subs[k]) })) &&
+		(len(res0) < 2 || !vs.ForallKey(subs, func(k uint32) bool { return !vs.Has(subs, k) || !specIsInfoOf(res0[1], subs[k]) }))
+}
+func post_lookupPresence_complete(s *Service, res0 []Info) bool { // and every connection of that set has its entry
+	subs := vs.TraceRet[message.Subscribers](0, 0)
+	return vs.ForallKey(subs, func(k uint32) bool {
+		if !vs.Has(subs, k) {
+			return true
+		}
+		if _, ok := subs[k].(service.Conn); !ok {
+			return true
+		}
+		return (len(res0) >= 1 && specIsInfoOf(res0[0], subs[k])) || (len(res0) >= 2 && specIsInfoOf(res0[1], subs[k]))
+	})
+}
